@@ -3,8 +3,9 @@
   `UserSecurityModel.send_discovery_message` / `set_engine_timing` /
   `generate_request_message`, against an authoritative engine with a clock and a boot counter.
 
-  Client and agent live on one time line (`now`, seconds): the client's monotonic clock and the
-  agent's clock advance together.  A history is a list of events; the trace is what goes over
+  Client and agent live on one time line (`now`, in ticks of 0.1 s): the client's monotonic clock
+  and the agent's clock advance together; engine times on the wire are whole seconds
+  (`int(time.monotonic() - disco_timestamp)` on the client, the integer snmpEngineTime on the agent).  A history is a list of events; the trace is what goes over
   the wire and what the agent's time-window check says about each authenticated request.
 -/
 import Snmp.Model.Basic
@@ -49,7 +50,7 @@ inductive Wire where
   | req (engineId ctxEngineId : Bytes) (boots time : Nat) (inWindow : Bool)
   deriving Repr, DecidableEq, BEq, Inhabited
 
-def Agent.time (a : Agent) (now : Nat) : Nat := now - a.bootAt
+def Agent.time (a : Agent) (now : Nat) : Nat := (now - a.bootAt) / 10
 
 /-- RFC 3414 3.2 (7b) on the authoritative side -/
 def inWindow (a : Agent) (now boots time : Nat) : Bool :=
@@ -61,7 +62,7 @@ def request (ctx : Bytes) (s : St) : St × List Wire :=
   let (c, pre) : Cached × List Wire := match s.disco with
     | some c => (c, [])
     | none => (⟨s.agent.engineId, s.agent.boots, s.agent.time s.now, s.now⟩, [.probe])
-  let time := c.time + (s.now - c.stamp)
+  let time := c.time + (s.now - c.stamp) / 10
   ({ s with disco := some c },
    pre ++ [.req c.engineId (if ctx == [] then c.engineId else ctx) c.boots time (inWindow s.agent s.now c.boots time)])
 
